@@ -32,6 +32,8 @@ def cases(tier, seed):
         yield {"fam": "wrap", "i": i}
     for i in range(270 if tier == "quick" else 2700):
         yield {"fam": "paircode", "i": i}
+    for i in range(32 if tier == "quick" else 320):
+        yield {"fam": "neartie", "i": i}
 
 
 def setup(ctx):
@@ -91,6 +93,22 @@ def run(case, ctx):
     cfg = {"input": it, "backend": [None, "cc3d", "scipy"][i % 3], "matcher": None if it == "MATCHED_INSTANCE" else dict(mk, metric=metric, thr=thr)}
     if fam == "wrap":
         return wrap_case(ctx, i, r, cfg)
+    if fam == "neartie":
+        p2, r2 = gen.near_tie_pair(ctx.seed, i)
+        cfg = dict(cfg, input="UNMATCHED_INSTANCE", matcher={"kind": ["naive", "merge"][i % 2], "metric": "IOU", "thr": 0.3, "m2o": bool(i % 4 == 2)}, metrics=["DSC", "IOU", "RVD"], **{"global": ["DSC"]})
+        swap = r2.copy()  # exchange the label values of the two competing references
+        la, lb = [int(x) for x in np.unique(r2) if x != 0][:2]
+        swap[r2 == la], swap[r2 == lb] = lb, la
+        base, t = meta.run(cfg, p2, r2), meta.run(cfg, p2, swap)
+        ctx.count("evaluations", 2)
+        ctx.count("f:C09.near_tie_large_instances")
+        d = meta.diff(base, t, metrics=["DSC", "IOU", "RVD"], keys=["num_ref_instances", "num_pred_instances", "tp", "fp", "fn", "rq", "sq", "sq_dsc", "pq", "sq_rvd"])
+        ctx.count("C09.judged")
+        if d is not None:
+            ctx.viol("result_changed_by_relabelling_or_dtype", {"pred": "near_tie_pair(%d)" % i, "labels": [la, lb], "cfg": cfg, "key": d}, features={"input": "UNMATCHED_INSTANCE", "kind": "near_tie_swap", "key": d.split(":")[0]})
+        else:
+            ctx.nontrivial("neartie", i, cfg)
+        return
     if fam == "paircode":
         # label values whose pair code lands at 2^8 / 2^16 / 2^32, against the same maps labelled 1..k in uint64
         p2, r2 = gen.paircode_boundary_pair(ctx.seed, i)
